@@ -173,7 +173,7 @@ def in_place_bodies(facts):
     cands = []
     keep = lambda d: re.search(RUN, d) is None and re.search(WRITE, d) is None
     for crate, body in facts.all_mir():
-        if crate != "jaq" or body.get("test") or not not_repl(body) or "{closure" in body["def"]:
+        if crate != "jaq" or body.get("test") or not not_repl(body):
             continue
         m = inline_calls(facts, body, ["jaq"], depth=3, only=keep)
         b = Body(m)
@@ -182,6 +182,27 @@ def in_place_bodies(facts):
     cands.sort(key=lambda x: x[0])
     return [cands[0][1]] if cands else []
 
+
+
+def rule_no_deferred_results(facts, rid):
+    """first error stops the run: outcomes are looked at one by one, never gathered first"""
+    r = Rule(rid, "the driver looks at the outcome of each file (and of each output) before it goes on: no iterator of `Result`s is collected into a container of results "
+             "(`Vec<Result<..>>`) in the driver crates -- gathering them first means every later file has already been processed (and replaced) when the first error is seen", floor=20)
+    nb = 0
+    for crate, body in facts.all_mir():
+        if crate not in ("jaq", "jaq_all") or body.get("test") or not not_repl(body):
+            continue
+        nb += 1
+        bb_ = Body(body)
+        for i, t in bb_.calls():
+            if re.search(r"Iterator::collect$|iter::traits::collect::FromIterator>?::from_iter$|Iterator::partition$|Iterator::unzip$", t.get("fn") or ""):
+                dty = bb_.locals[t["d"]["l"]]["ty"]
+                if re.search(r"^(alloc::vec::Vec|alloc::collections::\w+::\w+|alloc::boxed::Box<\[)[<\[]?\s*core::result::Result<", dty):
+                    r.violate(f"collect/{body['def'].split('::{closure')[0]}", f"`{body['def']}` gathers results into `{dty[:90]}` before looking at them: work behind the first failure (later files, later outputs) is done before the failure is noticed", where=t["sp"])
+        r.examined(body["def"], False)
+    r.instances = nb
+    r.nontrivial = {("bodies", nb)} if nb else set()
+    return r
 
 def run(facts, tier):
     t0 = time.time()
@@ -238,6 +259,9 @@ def run(facts, tier):
     if not n_exit:
         w7.missing_anchor("a call of std::process::exit in the driver (the `halt` exit status)")
     rules.append(w7.finish())
+
+    # ---- W18.8 outcomes are examined one at a time
+    rules.append(rule_no_deferred_results(facts, "W18.8").finish())
 
     # ---- W18.4 sole writer of file-system state (MONO)
     w4 = Rule("W18.4", "outside the interactive repl, the only first-party code that can change the file system is module `jaq` (the command-line driver), and it does so only through tempfile creation, NamedTempFile::persist, set_permissions and the RAII deletion of the temporary file", floor=50)
